@@ -65,7 +65,7 @@ var zzWatchTypes = []engine.WatchType{
 //gosym:cover stopped-something kept-composed non-composed-running
 func HarnessC13WatchGC() {
 	nRunning := zz.Bound(2, 3)
-	nXR := zz.Bound(1, 2)
+	nXR := zz.Bound(2, 2)
 	nRef := zz.Bound(2, 2)
 
 	e := &zzEngine{}
@@ -91,7 +91,11 @@ func HarnessC13WatchGC() {
 		xr.SetAPIVersion("example.org/v1")
 		xr.SetKind("XR")
 		xr.SetName("xr" + string(rune('0'+x)))
-		n := zz.Choose("xr"+string(rune('0'+x))+".refs", nRef+1)
+		maxRefs := nRef
+		if x == 0 {
+			maxRefs = zz.Bound(1, 2) // quick tier: the first XR has at most one reference
+		}
+		n := zz.Choose("xr"+string(rune('0'+x))+".refs", maxRefs+1)
 		rs := make([]any, 0, n)
 		for r := 0; r < n; r++ {
 			nm := "xr" + string(rune('0'+x)) + ".ref" + string(rune('0'+r))
